@@ -215,7 +215,7 @@ var timeNames = map[string]bool{"NewTimer": true, "AfterFunc": true, "After": tr
 	"NewTicker": true, "Tick": true, "Timer": true, "Ticker": true}
 var randNames = map[string]string{"Float64": "RandFloat64", "Intn": "RandIntn", "Int63n": "RandInt63n", "Int63": "RandInt63", "Int": "RandInt",
 	"Int31n": "RandInt31n", "Perm": "RandPerm", "Shuffle": "RandShuffle"}
-var syncNames = map[string]bool{"Mutex": true, "RWMutex": true, "WaitGroup": true, "Once": true}
+var syncNames = map[string]bool{"Mutex": true, "RWMutex": true, "WaitGroup": true, "Once": true, "Cond": true, "NewCond": true, "Map": true}
 var syncAllowed = map[string]bool{"Pool": true, "Locker": true}
 
 func (r *rewriter) run() {
